@@ -259,6 +259,13 @@ pub fn generate(prop: &str, rng: &mut Rng, tier: Tier) -> Scenario {
         _ => {}
     }
     plan.reuse_vm = s.bool();
+    if prop == "C29" {
+        for t in 0..ntx {
+            if s.below(4) == 0 {
+                plan.plain.push(t as u8);
+            }
+        }
+    }
     if matches!(prop, "C33") {
         for _ in 0..s.below(4) {
             plan.evictions.push((s.below(ntx as u64) as u8, s.below(300) as u32, s.below(3) as u8));
